@@ -24,7 +24,8 @@ TAKES_START = FINETUNE + ('community_louvain',)
 DET_GAIN = LOUVAIN + FINETUNE + ('community_louvain',)
 ZERO = ('modularity_und', 'modularity_dir', 'modularity_und_sign')
 BOOL_OK = ('community_louvain', 'modularity_finetune_und', 'modularity_finetune_dir', 'modularity_und', 'modularity_dir')
-UNSIGNED_OK = ('community_louvain', 'modularity_louvain_und', 'modularity_finetune_und', 'modularity_finetune_dir', 'modularity_und', 'modularity_dir')
+UNSIGNED_OK = ('community_louvain', 'modularity_louvain_und', 'modularity_finetune_und', 'modularity_finetune_dir', 'modularity_und', 'modularity_dir',
+               'modularity_finetune_und_sign', 'modularity_probtune_und_sign', 'modularity_und_sign')
 CROSS = {'und': ('modularity_louvain_und', 'modularity_finetune_und', 'community_louvain'), 'dir': ('community_louvain', 'modularity_finetune_dir'),
          'sign': ('modularity_louvain_und_sign', 'modularity_finetune_und_sign')}
 QTOL = 1e-8
@@ -448,7 +449,7 @@ def gen_case(sub, routines, scn_id, nmax=12):
         W = W.astype(rnd.choice((np.uint8, np.int8)))
         narrow8 = True
         weighted = 'float'  # no further container games
-    if weighted == 'int' and kind != 'sign' and not narrow8 and routine in UNSIGNED_OK and rnd.random() < 0.05:
+    if weighted == 'int' and (kind != 'sign' or onesign) and not narrow8 and routine in UNSIGNED_OK and (p.get('B') in (None, 'modularity', 'potts')) and rnd.random() < (0.05 if kind != 'sign' else 0.4):
         W = W.astype(rnd.choice((np.uint16, np.uint32)))  # unsigned counts (only for the routines that take them on the unchanged tree)
         weighted = 'float'
     r = rnd.random()
